@@ -49,6 +49,7 @@ func Run(c *hx.Ctx) {
 	probes = append(probes, genNative(c, w, c.N(700, 12000))...)
 	probes = append(probes, genScenarios(c, w, c.N(80, 2000))...)
 	probes = append(probes, genEvm(c, w, c.N(60, 1200))...)
+	probes = append(probes, genEvmOps(c)...)
 	oracle(c, probes, fatalWitnesses(w), "run")
 	// 4. correspondence cases for the guard model
 	runCorr(c, c.N(900, 9000))
@@ -95,6 +96,20 @@ func oracle(c *hx.Ctx, probes, fatal []Probe, origin string) {
 						c.Count("native-call-refused:" + ct)
 					}
 				}
+			}
+			if o.State == "panic" && kindOf(p) == "evmop" {
+				// the pre-execution of transaction k alone names the opcode and the byte code
+				var k int
+				if _, err := fmt.Sscanf(o.Path, "pre:%d", &k); err == nil && k < len(p.Txs) {
+					one := Probe{Name: p.Name, Txs: []TxSpec{p.Txs[k]}}
+					c.Fail("crash:evm:"+evmOpName(p.Txs[k].Note), "Invoke return value: EVM byte code ended in a Go panic (no recover on the EVM path): "+p.Txs[k].Note,
+						one, map[string]string{"path": "pre", "panic": o.Detail, "bytecode": p.Txs[k].Data}, "a result or an error")
+				} else if prePanicked(r) {
+					// the block died on a transaction that is reported on its own below
+				} else {
+					c.Fail("crash:evm:block", "Invoke return value: a block of EVM transactions ended in a Go panic", p, map[string]string{"path": o.Path, "panic": o.Detail}, "a result or an error")
+				}
+				continue
 			}
 			if o.State == "panic" {
 				c.Fail(crashClass(p, "panic", o.Detail), "Invoke return value: the execution ended in a Go panic (the node has no recover on this path)",
@@ -150,4 +165,13 @@ func crashClass(p Probe, how, detail string) string {
 		site = kindOf(p)
 	}
 	return "crash:" + how + ":" + site
+}
+
+func prePanicked(r ProbeResult) bool {
+	for _, o := range r.Outcomes {
+		if o.State == "panic" && strings.HasPrefix(o.Path, "pre:") {
+			return true
+		}
+	}
+	return false
 }
